@@ -108,6 +108,13 @@ def run(ctx):
     ctx.cov['end_to_end_real_pool'] = {'%s_%s' % k: v for k, v in sorted(hist.items())}
     for i in range(3):
         ctx.sample({'end_to_end_case': cs[i][0], 'impl': (lines + [''] * 3)[i][:300]})
+    # observation outside the premise of C07 (informational, never a verdict): a submission that races with a worker which has made its last
+    # poll but is not yet in FUTEX_WAIT.  The wakers' "no sleeper observed (totalSleeping_ == 0 / mask == 0) -> bump the epoch, no futex wake"
+    # paths lose the wake-up when the worker registers and blocks between the observation and the bump.
+    rc, outx = dv.sh([exe_pool], inp='c07x 1 1 ; S 0 0 1 1 1 0 0 0 0 0 0*50\n', timeout=120)
+    ctx.cov['observation_outside_premise'] = {'case': 'c07x 1 1 ; S 0 0 1 1 1 0 0 0 0 0 0*50', 'impl': outx.strip()[:300],
+                                              'meaning': 'real ThreadPool(1): worker past its last ring poll; producer pushes ring 0 and reads totalSleeping_ == 0; worker '
+                                                         'enterSleep..FUTEX_WAIT; producer bumps without wake -> task not started at quiescence (pool was NOT fully parked)'}
     ctx.phase('end_to_end')
 
     # ---- 2. native supporting evidence (one-sided: only a start later than half of the raised backstop counts)
@@ -143,10 +150,10 @@ def run(ctx):
             ctx.violation('pending task unreachable at quiescence: ' + o[-300:], {'finding_key': wc.KEY_C07 if has_partial else wc.KEY_C07_CLAIM, 'case': wc.line_of(c)})
         elif v == 2:
             ctx.violation('at quiescence (nothing runnable, timeouts off) a task is pending in a tier whose only possible takers are parked, although the producer completed the '
-                          'wake for it; no partial-group wake and no claimAndWakeOne involved: %s -> %s' % (wc.line_of(c)[:200], o[-300:]),
+                          'wake for it; no partial-group wake and no claimAndWakeOne involved: %s -> %s' % (wc.line_of(c), o[-400:]),
                           {'case': wc.line_of(c), 'output': o, 'cmd': 'echo "<case>" | build/harness/h_wake-*'})
         elif v == 1:
-            ctx.broken.append('correspondence L(C07): real trace differs from the model on ' + wc.line_of(c)[:200] + ' -> ' + o[:200])
+            ctx.broken.append('correspondence L(C07): real trace differs from the model on ' + wc.line_of(c) + ' -> ' + o)
     # the python mirror of the domain predicate agrees with the Gallina one
     probe = [(n, gs, k) for (n, gs) in wc.SIZES for k in range(1, n + 1)]
     body = ('From Coq Require Import ZArith List Bool.\nImport ListNotations.\n' + IMPORTS + '\nLocal Open Scope Z_scope.\n' +
